@@ -28,7 +28,8 @@ EXPLANATION = (
     'signatures through set(); R-C05.7 a simulate() that rewrites '
     'unique_together / index_together (which diff compares as ordered '
     'lists) keeps the order of the entries it keeps (no set / sorted on the '
-    'way).')
+    'way); '
+    'R-C05.6 also accepts the guard-clause spelling of __eq__ and a hash over tuple(self.x) for attributes compared through one normaliser on both sides.')
 NOT_DECIDED = (
     'Closure of diff -> hint -> simulate for all signature pairs (needs '
     'execution of the three functions on generated pairs).')
